@@ -433,6 +433,139 @@ func init() {
 		sb.WriteString("/-- every function that assigns a store's `immutable` field -/\n")
 		sb.WriteString("def immutableWriters : List String := " + LeanStrList(immWriters) + "\n\n")
 
+		// ---- order of "take the file snapshot" vs "read the memory tables" in the read paths
+		readOrder := func(fd *ast.FuncDecl) ([]string, bool) {
+			type ev struct {
+				pos token.Pos
+				s   string
+			}
+			var evs []ev
+			ast.Inspect(fd.Body, func(n ast.Node) bool {
+				switch x := n.(type) {
+				case *ast.CallExpr:
+					nm := exprName(x.Fun)
+					switch {
+					case strings.HasSuffix(nm, ".getSnapshot") || strings.HasSuffix(nm, ".GetSnapshot"):
+						evs = append(evs, ev{x.Pos(), "snapshot"})
+					case strings.HasSuffix(nm, ".findValuesByRegexp") || strings.HasSuffix(nm, ".findValuesByLikeFormMem") ||
+						strings.HasSuffix(nm, ".findSeriesIDsByKeyFromMem") || strings.HasSuffix(nm, ".loadSeriesIDsInMem"):
+						evs = append(evs, ev{x.Pos(), "memory"})
+					case nm == "verifhook.Yield":
+						evs = append(evs, ev{x.Pos(), "yield"})
+					}
+				case *ast.SelectorExpr:
+					if x.Sel.Name == "snapshot" {
+						if _, isCall := x.X.(*ast.CallExpr); !isCall {
+							evs = append(evs, ev{x.Pos(), "snapshot"})
+						}
+					}
+				}
+				return true
+			})
+			sort.SliceStable(evs, func(i, j int) bool { return evs[i].pos < evs[j].pos })
+			var out []string
+			firstMem, firstSnap := -1, -1
+			for i, e := range evs {
+				out = append(out, e.s)
+				if e.s == "memory" && firstMem < 0 {
+					firstMem = i
+				}
+				if e.s == "snapshot" && firstSnap < 0 {
+					firstSnap = i
+				}
+			}
+			return out, firstMem >= 0 && firstSnap >= 0 && firstMem < firstSnap
+		}
+		memFirstAll := func(names [][2]string, f *ast.File, lean string) error {
+			all := true
+			var lists []string
+			for _, rn := range names {
+				fd := FindFunc(f, rn[0], rn[1])
+				if fd == nil {
+					return fmt.Errorf("%s.%s not found", rn[0], rn[1])
+				}
+				l, mf := readOrder(fd)
+				lists = append(lists, rn[1]+": "+strings.Join(l, " "))
+				all = all && mf
+			}
+			sb.WriteString("def " + lean + "Order : List String := " + LeanStrList(lists) + "\n")
+			sb.WriteString("def " + lean + "MemFirst : Bool := " + c10Bool(all) + "\n")
+			return nil
+		}
+		sb.WriteString("/-- per read path: the order of taking the file snapshot and reading the memory tables -/\n")
+		if err := memFirstAll([][2]string{{"indexKVStore", "FindValuesByRegexp"}, {"indexKVStore", "findValuesByLike"}}, ks, "dictScan"); err != nil {
+			return "", err
+		}
+		if err := memFirstAll([][2]string{{"invertedIndex", "findSeriesIDsByKeys"}}, mid, "inv"); err != nil {
+			return "", err
+		}
+		if err := memFirstAll([][2]string{{"forwardIndex", "findSeriesIDsForTag"}}, mid, "fwd"); err != nil {
+			return "", err
+		}
+		sb.WriteString("\n")
+
+		// ---- scanGroupingTags: loop structure (no early exit, no bookkeeping shared across keys)
+		fsg, grp, err := ParseFile(repo, "flow/grouping.go")
+		if err != nil {
+			return "", err
+		}
+		sg := FindFunc(grp, "groupingContext", "scanGroupingTags")
+		if sg == nil {
+			return "", fmt.Errorf("groupingContext.scanGroupingTags not found")
+		}
+		var shape []string
+		var walkStmts func(list []ast.Stmt, depth int)
+		walkStmts = func(list []ast.Stmt, depth int) {
+			for _, st := range list {
+				switch x := st.(type) {
+				case *ast.RangeStmt:
+					shape = append(shape, fmt.Sprintf("%d:range %s", depth, c10Src(fsg, x.X)))
+					walkStmts(x.Body.List, depth+1)
+				case *ast.ForStmt:
+					shape = append(shape, fmt.Sprintf("%d:for", depth))
+					walkStmts(x.Body.List, depth+1)
+				case *ast.IfStmt:
+					shape = append(shape, fmt.Sprintf("%d:if %s", depth, c10Src(fsg, x.Cond)))
+					walkStmts(x.Body.List, depth+1)
+					if x.Else != nil {
+						shape = append(shape, fmt.Sprintf("%d:else", depth))
+						if b, ok := x.Else.(*ast.BlockStmt); ok {
+							walkStmts(b.List, depth+1)
+						}
+					}
+				case *ast.BranchStmt:
+					shape = append(shape, fmt.Sprintf("%d:%s", depth, x.Tok.String()))
+				case *ast.ReturnStmt:
+					shape = append(shape, fmt.Sprintf("%d:return", depth))
+				case *ast.AssignStmt:
+					var l []string
+					for _, e := range x.Lhs {
+						l = append(l, c10Src(fsg, e))
+					}
+					shape = append(shape, fmt.Sprintf("%d:%s %s", depth, strings.Join(l, ","), x.Tok.String()))
+				case *ast.IncDecStmt:
+					shape = append(shape, fmt.Sprintf("%d:%s%s", depth, c10Src(fsg, x.X), x.Tok.String()))
+				case *ast.ExprStmt:
+					if c, ok := x.X.(*ast.CallExpr); ok {
+						shape = append(shape, fmt.Sprintf("%d:call %s", depth, exprName(c.Fun)))
+						for _, a := range c.Args {
+							if fl, ok := a.(*ast.FuncLit); ok {
+								shape = append(shape, fmt.Sprintf("%d:func-literal", depth+1))
+								walkStmts(fl.Body.List, depth+2)
+							}
+						}
+					}
+				case *ast.DeclStmt:
+					shape = append(shape, fmt.Sprintf("%d:decl", depth))
+				default:
+					shape = append(shape, fmt.Sprintf("%d:%T", depth, st))
+				}
+			}
+		}
+		walkStmts(sg.Body.List, 0)
+		sb.WriteString("/-- statements of groupingContext.scanGroupingTags (depth:kind) -/\n")
+		sb.WriteString("def scanGroupingShape : List String := " + LeanStrList(shape) + "\n\n")
+
 		// ---- Rewrite() formats
 		_, ex, err := ParseFile(repo, "sql/stmt/expr.go")
 		if err != nil {
